@@ -136,14 +136,16 @@ func c07TreeOp(work string, c *c07Case, in bkInput) (func(ctx context.Context, c
 		return run, treeComplete, nil
 	case "untarindex":
 		idx := in.index()
-		ls, _, err := bkNewStore(work, "store")
+		ls, _, err := bkCachedStore(filepath.Dir(work), "untarindex|"+c.BlobHex+fmt.Sprint(c.Sizes), func(ls desync.LocalStore) error {
+			for _, ch := range in.chunks() {
+				if err := ls.StoreChunk(desync.NewChunk(ch)); err != nil {
+					return err
+				}
+			}
+			return nil
+		})
 		if err != nil {
 			return nil, nil, err
-		}
-		for _, ch := range in.chunks() {
-			if err := ls.StoreChunk(desync.NewChunk(ch)); err != nil {
-				return nil, nil, err
-			}
 		}
 		run := func(ctx context.Context, cc *canceller) error {
 			hs := &hookStore{ls, func(k string, id desync.ChunkID) error { cc.tick("st." + k); return nil }}
@@ -244,7 +246,7 @@ func c07ElementCuts(archive []byte) ([]int, error) {
 
 func c07Trees(a vh.Args, o *vh.Oracle, r *vh.Result, rng *vh.Rand) error {
 	trees := 2
-	maxK := 24
+	maxK := 14
 	if a.Tier == "thorough" {
 		trees = 8
 		maxK = 300
